@@ -636,6 +636,18 @@ func (e *SpecEnv) placeExpr(x ast.Expr) *Place {
 			}
 		}
 		return nil
+	case *ast.Ident:
+		// an address-taken local: the cell go/ssa allocated for it
+		for _, b := range e.fr.fn.Blocks {
+			for _, ins := range b.Instrs {
+				if a, ok := ins.(*ssa.Alloc); ok && a.Comment == x.Name {
+					if v, ok := e.fr.vals[a]; ok {
+						return e.fr.placeOf(v)
+					}
+				}
+			}
+		}
+		return nil
 	case *ast.IndexExpr:
 		v := e.eval(x.X)
 		i := e.eval(x.Index)
